@@ -8,7 +8,7 @@ use serde_json::{json, Value};
 pub const DEF: PropDef = PropDef {
     id: "C11",
     level: "exploration",
-    rule: "(1) all sequences of 1..4 (thorough 1..5) atoms after 6 heads (`x is`, `x was`, `x are`, `x's`, `the zed were`, `rock x like`) over 37 atoms (words of length 1,3,9,10,11,20,23; words with inner / trailing / leading apostrophes; 's, 're, 's's suffixes; hyphenated words incl. keywords and numerals after the hyphen; keywords used as words; four non-ASCII words (2-byte letters, length 10, capitals with a hyphen); a numeral; period and comma as separate and glued atoms); expected = the decimal numeral spelled by the word lengths, correctly rounded; printed value within 4 ulp, exact for integers; (2) all line texts of length <=4 (thorough <=5) over {a, space, comma, period, !, apostrophe, é, 1, -, tab} plus whole-lexeme atoms after `x says ` / `x said `: output equals the text byte for byte; (3) PoeticNumberLiteral::compute_value on every digit string of length <=6 (thorough <=7) x every position of the decimal point, each digit realised as a word of that length, and again as word + suffix splits; (4) right-hand sides that start with a literal word, a negative number or a number literal of any size (235 numerals) are ordinary expressions; single words of 24..70 000 letters (plain, hyphenated, suffixed, 2-byte letters) and words whose letters change UTF-8 length when lower-cased, in three positions after three heads; (5) one fixed probe of the recorded finding (an open quote in a poetic string swallows the following lines); non-trivial = all cases except the trivially empty text; distinct = distinct text / literal",
+    rule: "(1) all sequences of 1..4 (thorough 1..5) atoms after 6 heads (`x is`, `x was`, `x are`, `x's`, `the zed were`, `rock x like`) over 41 atoms (words of length 1,3,9,10,11,20,23; words with inner / trailing / leading apostrophes; 's, 're, 's's suffixes; hyphenated words incl. keywords and numerals after the hyphen; words with 5 and 10 suffix parts; the free-standing word 'n' / 'N'; keywords used as words; four non-ASCII words (2-byte letters, length 10, capitals with a hyphen); a numeral; period and comma as separate and glued atoms); expected = the decimal numeral spelled by the word lengths, correctly rounded; printed value within 4 ulp, exact for integers; (2) all line texts of length <=4 (thorough <=5) over {a, space, comma, period, !, apostrophe, é, 1, -, tab} plus whole-lexeme atoms after `x says ` / `x said `: output equals the text byte for byte; (3) PoeticNumberLiteral::compute_value on every digit string of length <=6 (thorough <=7) x every position of the decimal point, each digit realised as a word of that length, and again as word + suffix splits; (4) right-hand sides that start with a literal word, a negative number or a number literal of any size (235 numerals) are ordinary expressions; single words of 24..70 000 letters (plain, hyphenated, suffixed, 2-byte letters) and words whose letters change UTF-8 length when lower-cased, in three positions after three heads; (5) one fixed probe of the recorded finding (an open quote in a poetic string swallows the following lines); non-trivial = all cases except the trivially empty text; distinct = distinct text / literal",
     assumptions: &[
         "texts that leave a quote or parenthesis open on the line are outside the property's quantifier (recorded finding) and are not generated, except the one fixed probe",
         "tolerance: 4 units in the last place for numerals of <= 7 digits; integers below 2^53 must be exact",
